@@ -88,6 +88,21 @@ theorem c18_reject_duct (pitch : K) (a : Asm K) :
       rw [List.any_eq_true]
       exact ⟨f, hf, by simpa using hle⟩
 
+/-- core checks: an accepted core has positive length and pitch and leaves coolant for the assemblies: the total flow
+`Σ assembly flows / (1 - bypass_fraction)` the reactor computes has a positive divisor; with the flowing-gap model the gap gets flow -/
+theorem c18_accept_core (core : CoreIn K) (h : coreCheck core = .ok ()) :
+    0 < core.length ∧ 0 < core.asmPitch ∧ 0 < 1 - core.bypassFraction ∧ (core.flowGap = true → core.bypassFraction ≠ 0) := by
+  unfold coreCheck at h
+  split_ifs at h with h1 h2 h3
+  push Not at h1
+  refine ⟨h1.1, h1.2, by linarith [not_le.mp h2], fun hf hb => h3 ⟨hf, hb⟩⟩
+
+/-- a bypass fraction of one or more is rejected (positive length and pitch given) -/
+theorem c18_reject_bypass (core : CoreIn K) (hl : 0 < core.length) (hp : 0 < core.asmPitch) (h : 1 ≤ core.bypassFraction) :
+    coreCheck core = .error Err.bypassNotBelowOne := by
+  unfold coreCheck
+  rw [if_neg (by push Not; exact ⟨hl, hp⟩), if_pos h]
+
 /-- Non-vacuity: a sensible 3-ring bundle is accepted (√3 approximated from above for the check). -/
 example : checkPin (2 : ℚ) ⟨3, 8 / 1000, 6 / 1000, 5 / 10000, 1 / 1000, [5 / 100, 54 / 1000], false⟩ = .ok () := by
   norm_num [checkPin, minList]
